@@ -11,6 +11,7 @@
 import Shm.Lemmas.ModesLemmas
 import Shm.Crypto.More
 import Shm.Lemmas.DesLemmas
+import Shm.Lemmas.RsaPadLemmas
 namespace Shm.C10
 open Shm.Crypto
 
@@ -104,5 +105,11 @@ theorem C10_pkcs7 (bs : Nat) (m : Bytes) (h0 : 0 < bs) (h1 : bs < 256) :
     tables are the FIPS 46-3 ones is validated by execution: the FIPS example vector and every 3DES operation of K10 / K20) -/
 theorem C10_feistel_inverse {K : Type} (f : K → UInt32 → UInt32) (ks : List K) (x : UInt32 × UInt32) :
     Shm.Crypto.DES.core f ks.reverse (Shm.Crypto.DES.core f ks x) = x := Shm.Crypto.DES.core_inverse f ks x
+
+/-- **RSA PKCS#1 v1.5 encryption framing**: the reference decoder (which the monitor applies to `c^d mod n` of every RSA ciphertext the token makes, and to which the token's own
+    C_Decrypt answers are compared) returns exactly the message from `00 02 PS 00 M`, for every non-zero padding of at least eight bytes; MGF1 never yields more than asked -/
+theorem C10_pkcs1_encryption_framing (ps m : Bytes) (h : ∀ b ∈ ps, b ≠ 0) (h8 : 8 ≤ ps.length) (hash : Bytes → Bytes) (seed : Bytes) (len : Nat) :
+    Shm.Crypto.emePkcs1Decode (0x00 :: 0x02 :: (ps ++ 0x00 :: m)) = some m ∧ (Shm.Crypto.mgf1 hash seed len).length ≤ len :=
+  ⟨Shm.Crypto.pkcs1_type2_roundtrip ps m h h8, Shm.Crypto.mgf1_length_le hash seed len⟩
 
 end Shm.C10
